@@ -196,7 +196,7 @@ class Model(object):
         self.eval_num[k] = eval_num
         self.factorisation_current = False
 
-        if allow_kopt_update and self.objval[k] < self.objopt():
+        if allow_kopt_update and (self.objval[k] < self.objopt() or (np.isnan(self.objopt()) and not np.isnan(self.objval[k]))):
             self.kopt = k
         return
 
@@ -223,7 +223,9 @@ class Model(object):
             self.objval[k] += self.h(remove_scaling(self.xbase + self.points[k, :], self.scaling_changes), *self.argsh)
         self.nsamples[k] += 1
 
-        self.kopt = np.argmin(self.objval[:self.npt()])  # make sure kopt is always the best value we have
+        not_nan = np.where(np.logical_not(np.isnan(self.objval[:self.npt()])))[0]
+        if len(not_nan) > 0:
+            self.kopt = not_nan[np.argmin(self.objval[not_nan])]  # make sure kopt is always the best value we have (ignoring NaNs)
         return
 
     def add_new_point(self, x, rvec, eval_num):
@@ -238,7 +240,7 @@ class Model(object):
         self.num_pts += 1  # make sure npt is updated
         self.npt_so_far += 1
 
-        if obj < self.objopt():
+        if obj < self.objopt() or (np.isnan(self.objopt()) and not np.isnan(obj)):
             self.kopt = self.npt() - 1
 
         self.factorisation_current = False
@@ -262,7 +264,7 @@ class Model(object):
         obj = sumsq(rvec)
         if self.h is not None:
             obj += self.h(remove_scaling(xabs, self.scaling_changes), *self.argsh)
-        if self.objsave is None or obj <= self.objsave:
+        if self.objsave is None or obj <= self.objsave or (np.isnan(self.objsave) and not np.isnan(obj)):
             self.xsave = xabs
             self.rsave = rvec.copy()
             self.objsave = obj
@@ -276,7 +278,7 @@ class Model(object):
 
     def get_final_results(self):
         # Return x and objval for optimal point (either from xsave+objsave or kopt)
-        if self.objsave is None or self.objopt() <= self.objsave:  # optimal has changed since xsave+objsave were last set
+        if self.objsave is None or self.objopt() <= self.objsave or np.isnan(self.objsave):  # optimal has changed since xsave+objsave were last set
             return self.xopt(abs_coordinates=True).copy(), self.ropt().copy(), self.objopt(), self.model_jac.copy(), self.nsamples[self.kopt], self.eval_num[self.kopt], self.model_jac_eval_nums
         else:
             return self.xsave.copy(), self.rsave.copy(), self.objsave, self.jacsave, self.nsamples_save, self.eval_num_save, self.jacsave_eval_nums
